@@ -44,6 +44,17 @@ theorem fifo_read (v : Val) (pending : List Val) (h : Valid v) :
     decBuf (tyOf v) ((v :: pending).flatMap enc) = (.ok v, pending.flatMap enc) := by
   simpa using roundtrip_one v (pending.flatMap enc) h
 
+/-- all histories: however typed writes and reads (each of the type of the oldest unread value) are interleaved,
+    the buffer machine started empty answers exactly like an ideal FIFO queue of values, and holds exactly the
+    encodings of the values still queued — in particular it is empty whenever everything was read back -/
+theorem codec_history_fifo (ops : List BOp) (hops : ∀ o ∈ ops, o.valid) :
+    history [] [] ops = ((fifoSpec [] ops).1.map .ok, (fifoSpec [] ops).2.flatMap enc) := by
+  simpa using history_refines_fifo ops hops [] (by simp)
+
+theorem codec_history_empty_when_drained (ops : List BOp) (hops : ∀ o ∈ ops, o.valid)
+    (h : (fifoSpec [] ops).2 = []) : (history [] [] ops).2 = [] := by
+  rw [codec_history_fifo ops hops, h]; rfl
+
 /-- a size-limited string beyond its limit is refused and nothing is written -/
 theorem write_over_limit (l : UInt32) (s buf : Bytes) (h : l.toNat < s.length) (hs : s.length < 2 ^ 32) :
     write (.lstr l s) buf = (.err .sizeLimit, buf) := by
@@ -52,6 +63,9 @@ theorem write_over_limit (l : UInt32) (s buf : Bytes) (h : l.toNat < s.length) (
 
 /-- a varint never needs more than the 10 bytes `binary.MaxVarintLen64` (the scratch arrays have 12) -/
 theorem uvarint_length_le (x : UInt64) : (uvarintEnc x).length ≤ 10 := uvarintEncF_length_le 9 x.toNat
+
+/-- the loop bound in the model of `PutUvarint` (9 rounds) is never what ends the loop for a 64-bit value -/
+theorem uvarint_fuel_enough (x : UInt64) (k : Nat) : uvarintEncF (9 + k) x.toNat = uvarintEnc x := uvarintEncF_fuel x k
 
 /-! ### (2) truncated and arbitrary input -/
 
@@ -106,6 +120,13 @@ theorem stream_equals_buffer (c : Cfg) (hc : Proved c) (ty : Ty) (hty : ty.strea
     Out.agree (decStream c ty s).1 (decBuf ty s.flat).1 = true ∧ (decStream c ty s).2.flat = (decBuf ty s.flat).2 :=
   decStream_sim c hc ty hty s
 
+/-- with the `io.ErrUnexpectedEOF → ErrByteBufferEmpty` mapping of the repair, reads built on `Read(p)` alone agree with
+    the buffer reader in the error kind too (strings do not: a missing body is `io.EOF` on a stream, `ErrByteBufferEmpty`
+    on a buffer) -/
+theorem stream_equals_buffer_exact (c : Cfg) (hc : Proved c) (hm : c.mapShort = true) (ty : Ty)
+    (hty : ty.fixedLike = true) (s : Src) : (decStream c ty s).1 = (decBuf ty s.flat).1 :=
+  decStream_exact c hc.1 hm ty hty s
+
 /-- every read program (also continuing after errors) -/
 theorem stream_program_equals_buffer (c : Cfg) (hc : Proved c) (ts : List Ty)
     (hts : ∀ t ∈ ts, t.streamable = true) (s : Src) :
@@ -144,6 +165,10 @@ example : (Ty.lstr 5).streamable = true := rfl
 /-- a concrete program: u16, empty string, negative varint, NaN payload — written, read back, buffer empty -/
 example : readAll [.u16, .str, .varI64, .f64] (writeAll [.u16 513, .str [], .varI64 (-3), .f64 0x7ff8000000000001] []) =
     ([.ok (.u16 513), .ok (.str []), .ok (.varI64 (-3)), .ok (.f64 0x7ff8000000000001)], []) := by decide
+
+/-- a concrete interleaved history -/
+example : history [] [] [.w (.u8 7), .w (.str [1, 2]), .r, .w (.i16 (-2)), .r, .r, .r] =
+    ([.ok (.u8 7), .ok (.str [1, 2]), .ok (.i16 (-2))], []) := by decide
 
 /-- truncation really produces errors: 3 of the 4 bytes of a u32 -/
 example : decBuf .u32 [1, 0, 0] = (.err .empty, []) := by decide
